@@ -165,3 +165,47 @@ func VfLockRoutes() {
 		}
 	}
 }
+
+// VfLockDecisionBatch: C10 – auth.CheckObjectAccess (real code, real policy evaluation) on a batch of two keys that are both
+// under unexpired GOVERNANCE retention, with the bypass flag set and a bucket policy that grants the bypass permission for
+// none, the first, the second or both keys: the batch is let through only if the caller may bypass for every key in it -
+// the decision is taken per object.
+func VfLockDecisionBatch() {
+	be := &zzvfbe.Recorder{}
+	cfgBytes, _ := json.Marshal(auth.BucketLockConfig{Enabled: true})
+	zzvfbe.Hooks["GetObjectLockConfiguration"] = func(r *zzvfbe.Recorder, a []any) (any, error) { return cfgBytes, nil }
+	until := time.Now().Add(1000 * time.Hour)
+	retBytes, _ := json.Marshal(types.ObjectLockRetention{Mode: types.ObjectLockRetentionModeGovernance, RetainUntilDate: &until})
+	zzvfbe.Hooks["GetObjectRetention"] = func(r *zzvfbe.Recorder, a []any) (any, error) { return retBytes, nil }
+	zzvfbe.Hooks["GetObjectLegalHold"] = func(r *zzvfbe.Recorder, a []any) (any, error) {
+		return (*bool)(nil), s3err.GetAPIError(s3err.ErrNoSuchObjectLockConfiguration)
+	}
+	keys := []string{"scratch/a", "ledger/b"}
+	grant := []bool{zzvf.Choice("may_bypass_first_key", 2) == 1, zzvf.Choice("may_bypass_second_key", 2) == 1}
+	res := auth.Resources{}
+	for i, k := range keys {
+		if grant[i] {
+			res["bkt/"+k] = struct{}{}
+		}
+	}
+	var pol []byte
+	if len(res) > 0 {
+		pol, _ = json.Marshal(auth.BucketPolicy{Statement: []auth.BucketPolicyItem{{Effect: auth.BucketPolicyAccessTypeAllow,
+			Principals: auth.Principals{"caller": struct{}{}}, Actions: auth.Actions{auth.BypassGovernanceRetentionAction: struct{}{}}, Resources: res}}})
+	}
+	zzvfbe.Hooks["GetBucketPolicy"] = func(r *zzvfbe.Recorder, a []any) (any, error) {
+		if pol == nil {
+			return nil, s3err.GetAPIError(s3err.ErrNoSuchBucketPolicy)
+		}
+		return pol, nil
+	}
+	order := zzvf.Choice("order", 2)
+	objs := []types.ObjectIdentifier{{Key: &keys[order]}, {Key: &keys[1-order]}}
+	err := auth.CheckObjectAccess(context.Background(), "bkt", "caller", objs, true, be)
+	if err != nil {
+		zzvf.Reach("refused")
+	} else {
+		zzvf.Reach("let-through")
+	}
+	zzvf.Assert((err == nil) == (grant[0] && grant[1]), "batch-is-let-through-only-if-every-key-may-be-bypassed")
+}
